@@ -213,6 +213,8 @@ class UMFPACKSolver(SuiteSparseSolver):
             umfpack.linsolve(A, b)
         except ArithmeticError:
             logger.error('Singular matrix. Case is not solvable')
+            # `b` is unchanged on failure and must not be taken as the solution
+            return np.ravel(matrix(np.nan, b.size, 'd'))
         return np.ravel(b)
 
 
@@ -238,4 +240,6 @@ class KLUSolver(SuiteSparseSolver):
             klu.linsolve(A, b)
         except ArithmeticError:
             logger.error('Singular matrix. Case is not solvable')
+            # `b` is unchanged on failure and must not be taken as the solution
+            return np.ravel(matrix(np.nan, b.size, 'd'))
         return np.ravel(b)
